@@ -16,9 +16,19 @@ Tie between the Lean models (`Model/Affine.lean`, `Model/Bridge.lean`) and the r
   tolerance stream on well-conditioned float matrices (a TEST, labelled as such).
 * `cache` cases: histories of `register_transform` / `bridging_graph` against the state machine.
 * `sbs` cases: `shortest_bridging_seq` (legs via way-stations, inverse_weight=.5).
-* `tps` / `mls` cases: landmarks map to landmarks with tolerance (oracle only; a TEST, not a proof).
+* `tps` cases: histories of construct / use / `copy()` / `__neg__` / wrap-in-a-sequence / negate-through-the-graph over
+  `TPStransform` objects; after every use the cached coefficients are identified (whose landmarks do they belong to)
+  and compared with the cache state machine of `Model/Tps.lean`; navis' own coefficients are handed to the Lean checker
+  `solvesB` (proved sound: residual <= eps  =>  every landmark within eps of its target) evaluated in exact rationals, and
+  `xform` is compared with the model's `P@A + U@W` on extra points.
+* `mls` cases: landmarks map to landmarks with tolerance, `-(-T)`, `direction='inverse'` (a TEST, not a proof).
+* `seqmerge` cases: `TransformSequence.__init__` / `append` with members that merge into their predecessor.
+* `seqreg` / `seqnest` cases: registered `TransformSequence`s (incl. `register_transformfile`, non-invertible members),
+  sequences built from transforms, sequences and lists (flattening, merging, `copy()`, `-seq` defined iff all members are
+  invertible); a quarter of the registrations of the `bridge` / `sbs` registries are `TransformSequence`s as well.
+* `layout` cases: `TransformSequence.xform` / `xform_brain` never modify the input for every dtype / memory layout.
 """
-import warnings, copy
+import warnings, copy, tempfile, os, json
 from fractions import Fraction as F
 import numpy as np
 import pandas as pd
@@ -27,7 +37,7 @@ warnings.filterwarnings('ignore')
 import networkx as nx
 import navis
 from navis.transforms import templates as TT
-from navis.transforms.base import TransformSequence, FunctionTransform, AliasTransform
+from navis.transforms.base import TransformSequence, FunctionTransform, AliasTransform, BaseTransform
 from navis.transforms.affine import AffineTransform
 
 navis.config.pbar_hide = True
@@ -199,6 +209,21 @@ def tag(tr):
     return tr
 
 
+def vuid(tr):
+    """Identity of a transform that survives copy() and `-`: the tag, for a TransformSequence the tags of its members
+    (`-seq` builds a new sequence from the negated copies of the members, in reversed order)."""
+    if isinstance(tr, TransformSequence):
+        return ('seq',) + tuple(sorted(vuid(m) for m in tr.transforms))
+    return tr._vuid
+
+
+def tdesc(tr):
+    """descriptor for the driver's `invertible` command"""
+    if isinstance(tr, TransformSequence):
+        return 'seq:' + ','.join(type(m).__name__ for m in tr.transforms)
+    return type(tr).__name__
+
+
 def make_func(M):
     A = m_np(M)
 
@@ -207,7 +232,19 @@ def make_func(M):
     return f
 
 
-def make_transform(tk, M, func=None):
+def make_transform(tk, M, func=None, parts=None, nest='flat'):
+    if tk == 'seq':
+        # a registered TransformSequence whose members compose to M; built flat, around an inner sequence, or by append
+        ms = [make_transform('affine' if p_['k'] == 'A' else 'func', [F(x) for x in p_['mat']]) for p_ in parts]
+        if nest == 'flat' or len(ms) < 2:
+            return TransformSequence(*ms)
+        if nest == 'nested':
+            return TransformSequence(TransformSequence(*ms[:-1]), ms[-1])
+        if nest == 'nested2':
+            return TransformSequence(ms[0], TransformSequence(TransformSequence(*ms[1:])))
+        out = TransformSequence(ms[0])
+        out.append(TransformSequence(*ms[1:]) if nest == 'append-seq' else [m_.copy() for m_ in ms[1:]])
+        return out
     if tk == 'affine':
         return tag(AffineTransform(m_np(M)))
     if tk == 'func':
@@ -226,6 +263,8 @@ def recip_arg(rc):
     """case value → (python argument, driver token)"""
     if rc == 'True':
         return True, '1'
+    if rc == 'npTrue':          # truthy but not a numbers.Number: the `else` branch of bridging_graph (weight unscaled)
+        return np.True_, '1'
     if rc == 'False':
         return False, 'off'
     return float(F(rc)), ('off' if F(rc) == 0 else fs(F(rc)))
@@ -270,7 +309,7 @@ def build_registry(case):
     names = case['names']
     for rg in case['regs']:
         M = [F(x) for x in rg['mat']]
-        tr = make_transform(rg['tk'], M)
+        tr = make_transform(rg['tk'], M, parts=rg.get('parts'), nest=rg.get('nest', 'flat'))
         reg.register_transform(tr, names[rg['s']], names[rg['t']], rg['kind'], weight=wnum(rg['w']), skip_existing=False)
         objs.append((tr, M))
     return reg, objs
@@ -278,21 +317,21 @@ def build_registry(case):
 
 def regs_payload(reg, idx, objs):
     """Driver `regs` section read from the registry state (source, target, tid, type, invertible, weight)."""
-    uid2tid = {o._vuid: i for i, (o, _) in enumerate(objs)}
+    uid2tid = {vuid(o): i for i, (o, _) in enumerate(objs)}
     out = []
     for t in reg.transforms:
-        out.append(f"{idx[t.source]},{idx[t.target]},{uid2tid[t.transform._vuid]},{'b' if t.type == 'bridging' else 'm'},"
+        out.append(f"{idx[t.source]},{idx[t.target]},{uid2tid[vuid(t.transform)]},{'b' if t.type == 'bridging' else 'm'},"
                    f"{1 if t.invertible else 0},{fs(F(t.weight))}")
     return ';'.join(out)
 
 
 def graph_impl(G, reg, idx):
     reg_objs = [t.transform for t in reg.transforms]
-    uid2ridx = {o._vuid: i for i, o in enumerate(reg_objs)}
+    uid2ridx = {vuid(o): i for i, o in enumerate(reg_objs)}
     out = []
     for u, v, k, d in G.edges(keys=True, data=True):
         tr = d['transform']
-        ridx = uid2ridx[tr._vuid]
+        ridx = uid2ridx[vuid(tr)]
         direction = 'f' if tr is reg_objs[ridx] else 'i'
         out.append((idx[u], idx[v], k, ridx, direction, fs(F(d['weight']))))
     out.sort(key=lambda e: (e[0], e[1], e[2]))
@@ -313,6 +352,17 @@ def aslist(x):
     if x is None:
         return []
     return [x] if isinstance(x, str) else list(x)
+
+
+def as_form(x, form):
+    """`via` / `avoid` as the caller may pass them: a name, a list, a tuple or a set of names."""
+    if x is None or isinstance(x, str) or not form or form == 'list':
+        return copy.copy(x)
+    if form == 'tuple':
+        return tuple(x)
+    if form == 'set' and len(set(x)) == len(x):
+        return set(x)
+    return list(x)
 
 
 def rows_str(arr):
@@ -382,7 +432,12 @@ def case_bridge(ctx, case):
     via, avoid = q.get('via'), q.get('avoid')
     rc_py, rc_tok = recip_arg(q.get('recip', 'True'))
     frames = [[F(x) for x in fr] for fr in case['frames']]
-    reg, objs = build_registry(case)
+    try:
+        reg, objs = build_registry(case)
+    except (AttributeError, TypeError) as e:
+        ctx.oracle(False, f'building / registering the transforms (TransformSequences among them: '
+                          f'{[rg.get("nest") for rg in case["regs"] if rg["tk"] == "seq"]}) raised {type(e).__name__}: {str(e)[:120]}', case)
+        return
     regs = regs_payload(reg, idx, objs)
     for x in aslist(via) + aslist(avoid) + [s, t]:
         idx.setdefault(x, len(idx))
@@ -390,17 +445,35 @@ def case_bridge(ctx, case):
     ctx.count('via/avoid', f"{'via' if via else '-'}{len(aslist(via)) if via else ''}/{'avoid' if avoid else '-'}")
 
     # ---- the bridging graph -------------------------------------------------------------------
-    G = reg.bridging_graph(reciprocal=rc_py)
+    try:
+        G = reg.bridging_graph(reciprocal=rc_py)
+    except Exception as e:
+        ctx.oracle(False, f'bridging_graph(reciprocal={rc_py}) raised {type(e).__name__}: {str(e)[:120]} for a registry of AffineTransform / TransformSequence / '
+                          f'FunctionTransform / AliasTransform registrations: no query can be answered', case)
+        return
     g_impl = graph_impl(G, reg, idx)
     g_model = ctx.ask(f'c08.graph {rc_tok} | {regs}')
     ctx.corr(canon_graph(g_impl), canon_graph(g_model), 'bridging_graph edges (u,v,registration,direction,weight)', case)
-    exp_inv = ';'.join('1' if rg['tk'] in ('affine', 'alias') else '0' for rg in case['regs'])
+    exp_inv = ';'.join(ctx.ask('c08.invertible ' + tdesc(o)) for (o, _) in objs)
     ctx.corr(';'.join('1' if t_.invertible else '0' for t_ in reg.transforms), exp_inv,
-             'invertible flag of the registrations (hasattr __neg__)', case)
+             'invertible flag of the registrations (class defines __neg__; a sequence: every member does)', case)
+
+    for t_ in reg.transforms:
+        if isinstance(t_.transform, TransformSequence):
+            allinv = all(not isinstance(m_, FunctionTransform) for m_ in t_.transform.transforms)
+            try:
+                _ = -t_.transform
+                negok = True
+            except TypeError:
+                negok = False
+            ctx.count('seq_registration', 'invertible' if allinv else 'has-non-invertible-member')
+            ctx.oracle(negok == allinv and bool(t_.invertible) == allinv,
+                       f'registered TransformSequence {t_.source}->{t_.target}: all members invertible={allinv}, -sequence works={negok}, '
+                       f'marked invertible={t_.invertible}', case)
 
     # ---- find_bridging_path --------------------------------------------------------------------
     try:
-        path, transforms = reg.find_bridging_path(s, t, via=copy.copy(via), avoid=copy.copy(avoid), reciprocal=rc_py)
+        path, transforms = reg.find_bridging_path(s, t, via=as_form(via, q.get('vform')), avoid=as_form(avoid, q.get('aform')), reciprocal=rc_py)
         impl = ','.join(str(idx[p]) for p in path)
     except Exception as e:
         path, transforms = None, None
@@ -417,16 +490,41 @@ def case_bridge(ctx, case):
     vtok = ','.join(str(idx[v]) for v in aslist(via))
     atok = ','.join(str(idx[v]) for v in aslist(avoid))
     st = f'{idx[s]},{idx[t]}'
-    m_w = ctx.ask(f'c08.find w {rc_tok} | {regs} | {st} | {vtok} | {atok} | {sh} | {enum}')
-    as_written_agrees = impl == m_w
-    if as_written_agrees:
-        ctx.corr(impl, m_w, 'find_bridging_path decision (model of the code as written, on networkx\' enumeration)', case)
-        ctx.count('decision_model', 'as-written')
+    m_s = ctx.ask(f'c08.find s {rc_tok} | {regs} | {st} | {vtok} | {atok} | {sh} | {enum}')
+    as_written_agrees = False
+    if impl == m_s:
+        ctx.corr(impl, m_s, 'find_bridging_path decision (model of the CURRENT source: Gen/Bridge.lean, on networkx\' enumeration)', case)
+        ctx.count('decision_model', 'current-source')
     else:
-        # a repaired implementation (DESIGN §6 #9) must agree with the repaired model instead
+        # which hand-written variant (if any) does the implementation follow?  `w` is the HISTORICAL logic (before 0eaf94d)
         m_r = ctx.ask(f'c08.find r {rc_tok} | {regs} | {st} | {vtok} | {atok} | {sh} | {enum}')
-        ctx.count('decision_model', 'repaired' if impl == m_r else 'neither')
-        ctx.corr(impl, m_r, f'find_bridging_path decision: neither the model of the code as written ({m_w}) nor the repaired model', case)
+        m_w = ctx.ask(f'c08.find w {rc_tok} | {regs} | {st} | {vtok} | {atok} | {sh} | {enum}')
+        as_written_agrees = impl == m_w
+        ctx.count('decision_model', 'repaired' if impl == m_r else ('historical-as-written' if as_written_agrees else 'neither'))
+        ctx.corr(impl, m_s, f'find_bridging_path decision differs from the model of the current source (repaired model: {m_r}, historical: {m_w})', case)
+
+    # ---- the memoised graph must not be changed by a query; asking again gives the same answer -------------
+    g_after = graph_impl(reg.bridging_graph(reciprocal=rc_py), reg, idx)
+    ctx.oracle(canon_graph(g_after) == canon_graph(g_impl) and set(reg.bridging_graph(reciprocal=rc_py).nodes) == set(G.nodes),
+               f'find_bridging_path({s}->{t}, via={via}, avoid={avoid}) changed the memoised bridging graph', case)
+    try:
+        path2, _ = reg.find_bridging_path(s, t, via=as_form(via, q.get('vform')), avoid=as_form(avoid, q.get('aform')), reciprocal=rc_py)
+        impl2 = ','.join(str(idx[p]) for p in path2)
+    except Exception as e:
+        impl2 = err_kind(e)
+    ctx.oracle(impl2 == impl, f'find_bridging_path({s}->{t}, via={via}, avoid={avoid}) answers {impl2} when asked a second time (first: {impl})', case)
+    if q.get('probe'):
+        # an unrelated query afterwards must see the whole graph (fresh registry = reference)
+        a, b = q['probe']
+        ref, _ = build_registry(case)
+        outs = []
+        for rg_ in (reg, ref):
+            try:
+                outs.append(','.join(rg_.find_bridging_path(a, b, reciprocal=rc_py)[0]))
+            except Exception as e:
+                outs.append(err_kind(e))
+        ctx.oracle(outs[0] == outs[1], f'after the query ({s}->{t}, via={via}, avoid={avoid}) the registry answers {a}->{b} with {outs[0]}, '
+                                       f'a fresh registry with the same registrations with {outs[1]}', case)
 
     # ---- property oracle on the returned path ----------------------------------------------------
     known_nodes = impl not in ('ERR:no-regs', 'ERR:src-unknown', 'ERR:tgt-unknown', 'ERR:via-unknown') and not impl.startswith('ERR:other')
@@ -447,8 +545,8 @@ def case_bridge(ctx, case):
             ctx.count('weight_of_returned_path', 'minimal' if chk[3] == chk[2] else 'not-minimal')
         # choice among parallel edges: each transform must be ONE OF the edges joining the two nodes (the
         # property leaves the choice free); agreement with the choice as written is recorded only
-        uid2ridx = {t_.transform._vuid: i for i, t_ in enumerate(reg.transforms)}
-        picks = [f"{uid2ridx[tr._vuid]}:{'f' if tr is reg.transforms[uid2ridx[tr._vuid]].transform else 'i'}" for tr in transforms]
+        uid2ridx = {vuid(t_.transform): i for i, t_ in enumerate(reg.transforms)}
+        picks = [f"{uid2ridx[vuid(tr)]}:{'f' if tr is reg.transforms[uid2ridx[vuid(tr)]].transform else 'i'}" for tr in transforms]
         ctx.count('parallel_choice', 'as-written' if ','.join(picks) == ctx.ask(f'c08.picks {rc_tok} | {regs} | {impl}') else 'other')
         gm = {(e.split(',')[0], e.split(',')[1], e.split(',')[3] + ':' + e.split(',')[4]) for e in g_model.split(';') if e}
         hops = [(str(idx[a]), str(idx[b]), pk) for a, b, pk in zip(path[:-1], path[1:], picks)]
@@ -467,7 +565,7 @@ def case_bridge(ctx, case):
     before = copy.deepcopy(pts)
     with Swap(reg):
         try:
-            out = navis.xform_brain(pts, source=s, target=t, via=copy.copy(via), avoid=copy.copy(avoid), verbose=False)
+            out = navis.xform_brain(pts, source=s, target=t, via=as_form(via, q.get('vform')), avoid=as_form(avoid, q.get('aform')), verbose=False)
             xerr = None
         except Exception as e:
             out, xerr = None, err_kind(e)
@@ -542,7 +640,13 @@ def gen_registry(r, thorough=False):
             if tk == 'affine' and not inv_exact(E):
                 ok = False
                 break
-            regs.append(dict(s=a, t=b, tk=tk, kind='bridging', w=fs(r.choice([1, 1, 1, 2, 3, 5, F(1, 2), F(3, 2)])), mat=[fs(x) for x in E]))
+            extra = {}
+            if tk != 'alias' and r.random() < 0.25:
+                parts = split_parts(r, E)
+                if parts is not None:
+                    tk = 'seq'
+                    extra = dict(parts=parts, nest=r.choice(['flat', 'flat', 'nested', 'nested2', 'append-seq', 'append-list']))
+            regs.append(dict(s=a, t=b, tk=tk, kind='bridging', w=fs(r.choice([1, 1, 1, 2, 3, 5, F(1, 2), F(3, 2)])), mat=[fs(x) for x in E], **extra))
         if not ok or (not regs and r.random() < 0.85):
             continue
         # mirror registrations must be ignored by the bridging graph
@@ -559,6 +663,27 @@ def gen_registry(r, thorough=False):
         if not all(small(M, 14, 14) for M in mats):
             continue
         return dict(names=names, frames=[[fs(x) for x in fr] for fr in frames], regs=regs)
+
+
+def split_parts(r, E):
+    """E as a product of 1-3 members (first parts[0], then parts[1], …): affine members have exactly invertible float
+    matrices, `F` members are FunctionTransforms (not invertible)."""
+    for _ in range(6):
+        k = r.choice([1, 2, 2, 3])
+        mats, rest = [], E
+        for _ in range(k - 1):
+            M1 = rand_elem(r)
+            mats.append(M1)
+            rest = m_comp(m_inv(M1), rest)
+        mats.append(rest)
+        kinds = [r.choice(['A', 'A', 'A', 'F']) for _ in mats]
+        if all(small(M, 14, 14) and m_det(M) != 0 and small(m_inv(M), 14, 14) and (kd == 'F' or inv_exact(M)) for M, kd in zip(mats, kinds)):
+            chk = list(ID12)
+            for M in mats:
+                chk = m_comp(chk, M)
+            assert chk == E
+            return [dict(k=kd, mat=[fs(x) for x in M]) for M, kd in zip(mats, kinds)]
+    return None
 
 
 def gen_world(r, frames):
@@ -601,7 +726,13 @@ def gen_query(r, spec):
     if r.random() < 0.05:
         q['via'] = []
     if r.random() < 0.15:
-        q['recip'] = r.choice(['False', '1/2', '2', '0'])
+        q['recip'] = r.choice(['False', '1/2', '2', '0', 'npTrue'])
+    if isinstance(q['via'], list) and r.random() < 0.4:
+        q['vform'] = r.choice(['tuple', 'set'])
+    if isinstance(q['avoid'], list) and r.random() < 0.4:
+        q['aform'] = r.choice(['tuple', 'set'])
+    if r.random() < 0.35 and len(names) >= 2:
+        q['probe'] = r.sample(names, 2)
     return q
 
 
@@ -663,13 +794,17 @@ def make_member(m):
     if m['k'] == 'C':
         k = float(F(m['cut']))
         return FunctionTransform(lambda pts, k=k: np.where(pts[:, [0]] > k, np.nan, pts))
+    if m['k'] == 'Z':
+        # identity on clean input; garbage in EVERY row as soon as it is handed a NaN (a member that is not row-wise:
+        # the sequence must never pass it a NaN row)
+        return FunctionTransform(lambda pts: np.zeros_like(pts) if np.isnan(pts).any() else pts)
     raise ValueError(m)
 
 
 def member_tok(m):
     if m['k'] in ('A', 'F'):
         return 'A:' + ','.join(m['mat'])
-    if m['k'] == 'I':
+    if m['k'] in ('I', 'Z'):
         return 'A:' + m_str(ID12)
     return 'C:' + m['cut']
 
@@ -715,6 +850,18 @@ def case_seq(ctx, case):
     if len(b64) > 1:
         single = [rows_str(seq.xform(b64[i:i + 1])) for i in range(len(b64))]
         ctx.oracle(';'.join(single) == rows_str(out), 'a row of the result depends on other rows', case)
+    # -seq with a member that cannot be inverted must raise (never a silently wrong "inverse")
+    if not case.get('neg') and members:
+        noninv = any(m['k'] in ('F', 'C', 'Z') for m in members)
+        singular = any(m['k'] == 'A' and m_det([F(x) for x in m['mat']]) == 0 for m in members)
+        if noninv or (singular and all(m['k'] != 'A' or m_det([F(x) for x in m['mat']]) != 0 or singular_by_construction([F(x) for x in m['mat']]) for m in members)):
+            try:
+                _ = -seq
+                raised = False
+            except (TypeError, np.linalg.LinAlgError):
+                raised = True
+            ctx.count('neg_of_noninvertible_seq', 'raised' if raised else 'returned')
+            ctx.oracle(raised, '-TransformSequence with a non-invertible member (FunctionTransform / singular matrix) returned a sequence instead of raising', case)
     # -seq
     if case.get('neg'):
         neg = -seq
@@ -739,15 +886,15 @@ def gen_seq(r):
                     break
             members.append(dict(k='A', mat=[fs(x) for x in M]))
         else:
-            k = r.choice(['A', 'A', 'A', 'F', 'I', 'C'])
+            k = r.choice(['A', 'A', 'A', 'F', 'I', 'C', 'Z'])
             if k in ('A', 'F'):
                 while True:
                     M = rand_small_matrix(r) if r.random() < 0.5 else rand_frame(r, n=r.randint(1, 2))
                     if small(M, 6, 6):
                         break
                 members.append(dict(k=k, mat=[fs(x) for x in M]))
-            elif k == 'I':
-                members.append(dict(k='I'))
+            elif k in ('I', 'Z'):
+                members.append(dict(k=k))
             else:
                 members.append(dict(k='C', cut=fs(F(r.randint(-8, 8), 2))))
     rows = []
@@ -866,14 +1013,18 @@ def case_cache(ctx, case):
             ops_tok.append(f"R:{op['s']},{op['t']},{op['tid']},{'b' if op['kind'] == 'bridging' else 'm'},{inv},{op['w']},{1 if op['skip'] else 0}")
         else:
             rc_py, rc_tok = recip_arg(op['recip'])
-            G = reg.bridging_graph(reciprocal=rc_py)
+            try:
+                G = reg.bridging_graph(reciprocal=rc_py)
+            except Exception as e:
+                ctx.oracle(False, f'bridging_graph(reciprocal={rc_py}) raised {type(e).__name__}: {str(e)[:120]}', case)
+                return
             # identify registrations by tid (equal transforms share a tid)
             reg_objs = [t.transform for t in reg.transforms]
-            uid2ridx = {o._vuid: i for i, o in enumerate(reg_objs)}
+            uid2ridx = {vuid(o): i for i, o in enumerate(reg_objs)}
             es = []
             for u, v, k, d in G.edges(keys=True, data=True):
                 tr = d['transform']
-                ridx = uid2ridx[tr._vuid]
+                ridx = uid2ridx[vuid(tr)]
                 es.append((idx[u], idx[v], k, ridx, 'f' if tr is reg_objs[ridx] else 'i', fs(F(d['weight']))))
             es.sort(key=lambda e: (e[0], e[1], e[2]))
             impl.append(';'.join(','.join(map(str, e)) for e in es))
@@ -938,7 +1089,11 @@ def case_sbs(ctx, case):
     allnames = list(names) + list(UNKNOWN)
     idx = {n: i for i, n in enumerate(allnames)}
     frames = [[F(x) for x in fr] for fr in case['frames']]
-    reg, objs = build_registry(case)
+    try:
+        reg, objs = build_registry(case)
+    except (AttributeError, TypeError) as e:
+        ctx.oracle(False, f'building / registering the transforms (TransformSequences among them) raised {type(e).__name__}: {str(e)[:120]}', case)
+        return
     regs = regs_payload(reg, idx, objs)
     q = case['query']
     s, t, via = q['s'], q['t'], q.get('via')
@@ -1023,19 +1178,566 @@ def case_landmarks(ctx, case):
     ctx.oracle(np.abs(fwd - tgt).max() <= tol, f"{case['kind2']}: source landmarks are not mapped onto target landmarks (max err {np.abs(fwd - tgt).max():.3g})", case)
     ctx.oracle(np.abs(back - src).max() <= tol, f"{case['kind2']}: negated transform does not map target landmarks back (max err {np.abs(back - src).max():.3g})", case)
     ctx.oracle(np.array_equal(s0, src) and np.array_equal(t0, tgt), f"{case['kind2']}: landmarks modified", case)
+    with np.errstate(all='ignore'):
+        nn = (-(-tr)).xform(src)
+        cp = tr.copy().xform(src)
+    ctx.oracle(np.abs(nn - tgt).max() <= tol, f"{case['kind2']}: -(-T) does not map source landmarks onto target landmarks", case)
+    ctx.oracle(np.abs(cp - tgt).max() <= tol, f"{case['kind2']}: T.copy() does not map source landmarks onto target landmarks", case)
+    if case['kind2'] == 'mls':
+        with np.errstate(all='ignore'):
+            inv = MovingLeastSquaresTransform(src, tgt, direction='inverse').xform(tgt)
+            again = tr.xform(src)        # negating / copying must not have flipped the original
+        ctx.oracle(np.abs(inv - src).max() <= tol, "mls: direction='inverse' does not map target landmarks onto source landmarks", case)
+        ctx.oracle(np.array_equal(again, fwd), 'mls: negating or copying changed the original transform', case)
     good = np.isnan(sq[2]).any() and sq[2][1] == 1 and sq[2][2] == 2 and np.abs(np.delete(sq, 2, axis=0) - tgt).max() <= tol
     ctx.oracle(bool(good), f"{case['kind2']} inside a TransformSequence: NaN row contaminated other rows or was touched", case)
 
 
+
+# ---------------------------------------------------------------------------------------------
+# thin plate splines: coefficient cache under copy() / __neg__, coefficients against the TPS system (Lean, exact)
+# ---------------------------------------------------------------------------------------------
+def frs(a):
+    """exact rational rows of a float array"""
+    return ';'.join(','.join(fs(F(float(v))) for v in row) for row in np.asarray(a, dtype=np.float64))
+
+
+def tps_landmarks(seed, n):
+    rr = np.random.default_rng(seed)
+    base = np.round(rr.uniform(-100, 100, (n, 3)) * 4) / 4
+    lm = [base]
+    for _ in range(2):
+        lm.append(np.round((base * rr.uniform(0.8, 1.3) + rr.normal(0, 4, (n, 3)) + rr.uniform(-20, 20, 3)) * 4) / 4)
+    return lm, rr
+
+
+def case_tps(ctx, case):
+    import morphops as mops
+    from navis.transforms.thinplate import TPStransform
+    lm, rr = tps_landmarks(case['seed'], case['n'])
+    coef = {}
+    for a in range(3):
+        for b in range(3):
+            if a != b:
+                coef[(a, b)] = mops.tps_coefs(lm[a], lm[b])
+    pool, pairs, toks, seen = [], [], [], []
+    lm0 = [x.copy() for x in lm]
+
+    def used(i, tr):
+        """after object i was used: whose coefficients does it hold? + property oracles"""
+        a, b = pairs[i]
+        W, A = tr._W, tr._A
+        who = [f'{x}>{y}' for (x, y), (W0, A0) in coef.items() if W is not None
+               and np.allclose(W, W0, rtol=1e-9, atol=1e-12 * (1 + np.abs(W0).max())) and np.allclose(A, A0, rtol=1e-9, atol=1e-12 * (1 + np.abs(A0).max()))]
+        seen.append(who[0] if len(who) == 1 else f'?{len(who)}')
+        src, tgt = lm[a], lm[b]
+        tol = 1e-6 * (1 + np.abs(tgt).max())
+        with np.errstate(all='ignore'):
+            got = tr.xform(src)
+        err = float(np.abs(got - tgt).max())
+        ctx.oracle(err <= tol, f'tps: after the history {case["hist"]} object {i} (landmark set {a} -> {b}) does not map its source landmarks '
+                               f'onto its target landmarks (max err {err:.3g})', case)
+        ctx.oracle(np.array_equal(tr.source, src) and np.array_equal(tr.target, tgt),
+                   f'tps: object {i} should hold landmark sets {a} -> {b}', case)
+        if W is None:
+            return
+        # navis' own coefficients against the TPS system, in exact rationals (Lean checker `solvesB`, proved sound)
+        pts = rr.uniform(-120, 120, (3, 3))
+        with np.errstate(all='ignore'):
+            out = tr.xform(pts)
+        K = mops.K_matrix(src, src)
+        Kp = mops.K_matrix(pts, src)
+        ans = ctx.ask(f'c08.tps {fs(F(tol))} | {frs(src)} | {frs(tgt)} | {frs(K)} | {frs(W)} | {frs(A)} | {frs(pts)} | {frs(Kp)} | {frs(out)}').split()
+        ctx.oracle(ans[0] == '1' and ans[1] == '1',
+                   f'tps: the coefficients object {i} holds do not solve the thin-plate-spline system of ITS landmarks ({a} -> {b}) within {tol:.3g} '
+                   f'(max residual {float(F(ans[3])):.3g}); solves={ans[0]} landmarks={ans[1]}', case)
+        ctx.corr(ans[2], '1', 'TPStransform.xform = P@A + U@W (kernel against the source landmarks) on extra points, within tolerance', case)
+        ctx.count('tps_residual_log10', int(np.floor(np.log10(max(float(F(ans[3])), 1e-300)))))
+
+    for op in case['hist']:
+        k = op[0]
+        if k == 'M':
+            pool.append(TPStransform(lm[op[1]], lm[op[2]]))
+            pairs.append((op[1], op[2]))
+            toks.append(f'M:{op[1]},{op[2]}')
+            continue
+        i = op[1]
+        if i >= len(pool):
+            continue
+        if k == 'U':
+            toks.append(f'U:{i}')
+            _ = pool[i].W if op[2:] == ['W'] else (pool[i].A if op[2:] == ['A'] else pool[i].xform(lm[pairs[i][0]][:2]))
+            used(i, pool[i])
+        elif k == 'C':
+            pool.append(pool[i].copy())
+            pairs.append(pairs[i])
+            toks.append(f'C:{i}')
+        elif k == 'N':
+            pool.append(-pool[i])
+            pairs.append((pairs[i][1], pairs[i][0]))
+            toks.append(f'N:{i}')
+        elif k == 'S':       # TransformSequence(tr) copies its member; use it through the sequence
+            seq = TransformSequence(pool[i])
+            pool.append(seq.transforms[0])
+            pairs.append(pairs[i])
+            toks += [f'C:{i}', f'U:{len(pool) - 1}']
+            a = pairs[i][0]
+            pts = np.vstack([lm[a][:2], [[np.nan, 1, 2]], lm[a][2:]])
+            with np.errstate(all='ignore'):
+                sq = seq.xform(pts)
+            tgt = lm[pairs[i][1]]
+            tol = 1e-6 * (1 + np.abs(tgt).max())
+            good = np.isnan(sq[2][0]) and sq[2][1] == 1 and sq[2][2] == 2 and np.abs(np.delete(sq, 2, axis=0) - tgt).max() <= tol
+            ctx.oracle(bool(good), 'tps inside a TransformSequence: landmarks not mapped onto landmarks, or the NaN row was touched / contaminated other rows', case)
+            used(len(pool) - 1, pool[-1])
+        elif k == 'G':       # register it: the reverse edge of the bridging graph carries -transform
+            reg = TT.TemplateRegistry(scan_paths=False)
+            reg.register_transform(pool[i], 'SRC', 'TGT', 'bridging')
+            path, trs = reg.find_bridging_path('TGT', 'SRC')
+            ctx.oracle(path == ['TGT', 'SRC'] and len(trs) == 1, 'tps: a registered TPS transform has no reverse edge', case)
+            pool.append(trs[0])
+            pairs.append((pairs[i][1], pairs[i][0]))
+            toks += [f'N:{i}', f'U:{len(pool) - 1}']
+            _ = pool[-1].xform(lm[pairs[-1][0]][:2])
+            used(len(pool) - 1, pool[-1])
+    ctx.oracle(all(np.array_equal(x, y) for x, y in zip(lm, lm0)), 'tps: landmark arrays modified', case)
+    model = ctx.ask('c08.tpscache ' + ';'.join(toks))
+    ctx.count('tps_hist_len', len(case['hist']))
+    ctx.corr(';'.join(seen + [f'N={len(pool)}']), model,
+             'whose coefficients every use observes along a construct/use/copy/negate history (cache state machine)', case)
+
+
+def gen_tps(r):
+    hist = [['M', 0, 1]]
+    if r.random() < 0.4:
+        hist.append(['M', *r.sample(range(3), 2)])
+    n = len(hist)
+    for _ in range(r.randint(2, 7)):
+        k = r.choice(['U', 'U', 'U', 'C', 'N', 'N', 'S', 'G'])
+        i = r.randrange(n)
+        if k == 'U':
+            hist.append(['U', i] + r.choice([[], [], ['W'], ['A']]))
+        else:
+            hist.append([k, i])
+            n += 1
+    # the pattern that needs a warm cache: use, negate, use
+    if r.random() < 0.5:
+        i = r.randrange(n)
+        hist += [['U', i], [r.choice(['N', 'G']), i]]
+        n += 1
+        if hist[-1][0] == 'N':
+            hist.append(['U', n - 1])
+    return dict(seed=r.randrange(10 ** 9), n=r.choice([5, 6, 8, 12]), hist=hist)
+
+
+# ---------------------------------------------------------------------------------------------
+# TransformSequence construction: members that merge into their predecessor
+# ---------------------------------------------------------------------------------------------
+class MergeAffine(BaseTransform):
+    """Test double for an appendable transform (what CMTKtransform does with its list of registrations):
+    `a.append(b)` turns `a` into "first a, then b" when `b` is of the same kind, NotImplementedError otherwise."""
+
+    def __init__(self, matrix):
+        self.matrix = np.array(matrix, dtype=np.float64)
+
+    def copy(self):
+        return MergeAffine(self.matrix.copy())
+
+    def __neg__(self):
+        return MergeAffine(np.linalg.inv(self.matrix))
+
+    def append(self, other):
+        if not isinstance(other, MergeAffine):
+            raise NotImplementedError(f'Unable to append {type(other)}')
+        self.matrix = other.matrix @ self.matrix
+
+    def xform(self, points):
+        points = np.asarray(points)
+        return points @ self.matrix[:3, :3].T + self.matrix[:3, 3]
+
+
+def make_member2(m):
+    if m['k'] == 'M':
+        return MergeAffine(m_np([F(x) for x in m['mat']]))
+    return make_member(m)
+
+
+def member_tok2(m):
+    if m['k'] == 'M':
+        return 'M:' + ','.join(m['mat'])
+    return member_tok(m)
+
+
+def case_seqmerge(ctx, case):
+    members = case['members']
+    objs = [make_member2(m) for m in members]
+    mats0 = [o.matrix.copy() if hasattr(o, 'matrix') else None for o in objs]
+    how = case.get('how', 'init')
+    if how == 'init':
+        seq = TransformSequence(*objs)
+    elif how == 'append':
+        seq = TransformSequence()
+        for o in objs:
+            seq.append(o.copy())
+    else:                   # one append of a list is not possible (open finding); append one by one without copies
+        seq = TransformSequence(*objs, copy=False)
+    arr = make_rows(case)
+    before = copy.deepcopy(arr)
+    out = seq.xform(arr)
+    b64 = np.asarray(before, dtype=np.float64).reshape(-1, 3)
+    model = ctx.ask(f"c08.seqbuild {';'.join(member_tok2(m) for m in members)} | {rows_str(b64)}")
+    n_model, rows_model = [x.strip() for x in model.split('|')]
+    ctx.count('seqmerge', f'{len(members)}->{len(seq)}')
+    ctx.corr(str(len(seq)), n_model, 'number of members after TransformSequence merged appendable members', case)
+    ctx.corr(rows_str(out), rows_model, 'TransformSequence with merged members: rows', case)
+    # the property: the sequence is the composition of the members handed in, in order
+    plain = ctx.ask(f"c08.seq {';'.join(member_tok(dict(m, k='A') if m['k'] == 'M' else m) for m in members)} | {rows_str(b64)}")
+    ctx.oracle(rows_str(out) == plain, f'TransformSequence({how}) of {len(members)} members (merged into {len(seq)}) is not the composition of its members in order', case)
+    ctx.oracle(same_input(before, arr), 'TransformSequence.xform modified its input', case)
+    if how in ('init', 'append'):
+        same = all(m0 is None or np.array_equal(m0, o.matrix) for m0, o in zip(mats0, objs))
+        ctx.oracle(same, 'building a TransformSequence (copy=True) changed a member transform handed in', case)
+
+
+def gen_seqmerge(r):
+    n = r.choice([1, 2, 2, 3, 4, 5, 6])
+    members = []
+    for _ in range(n):
+        k = r.choice(['M', 'M', 'M', 'A', 'F', 'I', 'C'])
+        if k in ('M', 'A', 'F'):
+            while True:
+                M = rand_frame(r, n=r.randint(1, 2))
+                if small(M, 5, 5):
+                    break
+            members.append(dict(k=k, mat=[fs(x) for x in M]))
+        elif k == 'I':
+            members.append(dict(k='I'))
+        else:
+            members.append(dict(k='C', cut=fs(F(r.randint(-8, 8), 2))))
+    rows = []
+    for _ in range(r.randint(1, 4)):
+        rows.append(r.choice(['nan0', 'nanall']) if r.random() < 0.2 else [fs(F(r.randint(-8, 8), r.choice([1, 2]))) for _ in range(3)])
+    return dict(members=members, rows=rows, how=r.choice(['init', 'init', 'append', 'nocopy']), dtype='float64')
+
+
+
+# ---------------------------------------------------------------------------------------------
+# sequences of sequences / lists, copy()
+# ---------------------------------------------------------------------------------------------
+def case_seqnest(ctx, case):
+    items = case['items']          # each: a member dict, or dict(group=[members], as_='seq'|'list')
+    how = case['how']
+    flat = [m for it in items for m in (it['group'] if 'group' in it else [it])]
+
+    def obj_of(it):
+        if 'group' in it:
+            ms = [make_member2(m) for m in it['group']]
+            return TransformSequence(*ms) if it['as_'] == 'seq' or how != 'append' else ms
+        return make_member2(it)
+    try:
+        objs = [obj_of(it) for it in items]
+        inner_before = [(len(o), [getattr(m_, 'matrix', np.zeros(1)).copy() for m_ in o.transforms]) if isinstance(o, TransformSequence) else None for o in objs]
+        if how == 'init':
+            seq = TransformSequence(*objs)
+        elif how == 'nocopy':
+            seq = TransformSequence(*objs, copy=False)
+        else:
+            seq = TransformSequence()
+            for o in objs:
+                seq.append(o)
+        cp = seq.copy()
+        arr = make_rows(case)
+        before = copy.deepcopy(arr)
+        out = seq.xform(arr)
+        out_cp = cp.xform(arr)
+    except Exception as e:
+        ctx.oracle(False, f'TransformSequence({how}) built from transforms and sequences / lists raised {type(e).__name__}: {str(e)[:120]}', case)
+        return
+    b64 = np.asarray(before, dtype=np.float64).reshape(-1, 3)
+    tok = ';'.join('[' + '+'.join(member_tok2(m) for m in it['group']) + ']' if 'group' in it else member_tok2(it) for it in items)
+    model = ctx.ask(f'c08.seqnest {tok} | {rows_str(b64)}')
+    n_model, rows_model = [x.strip() for x in model.split('|')]
+    ctx.count('seqnest', f'{len(items)} items/{len(flat)} members->{len(seq)}')
+    ctx.corr(str(len(seq)), n_model, 'number of members of a TransformSequence built from transforms and sequences (flattened, appendable members merged)', case)
+    ctx.corr(rows_str(out), rows_model, 'TransformSequence built from transforms and sequences: rows', case)
+    ctx.oracle(all(isinstance(m_, BaseTransform) for m_ in seq.transforms), 'a TransformSequence holds a non-transform member (sequence not flattened)', case)
+    plain = ctx.ask(f"c08.seq {';'.join(member_tok(dict(m, k='A') if m['k'] == 'M' else m) for m in flat)} | {rows_str(b64)}")
+    ctx.oracle(rows_str(out) == plain, f'TransformSequence({how}) built from {len(items)} transforms / sequences is not the composition of all members in order', case)
+    ctx.oracle(rows_str(out_cp) == plain and len(cp) == len(seq), 'TransformSequence.copy() is not the same composition', case)
+    ctx.oracle(all(a is not b for a, b in zip(cp.transforms, seq.transforms)) and cp.transforms is not seq.transforms,
+               'TransformSequence.copy() shares member objects with the original', case)
+    ctx.oracle(same_input(before, arr), 'TransformSequence.xform modified its input', case)
+    if how == 'init':
+        ok = all(ib is None or (len(o) == ib[0] and all(np.array_equal(getattr(m_, 'matrix', np.zeros(1)), mb) for m_, mb in zip(o.transforms, ib[1])))
+                 for o, ib in zip(objs, inner_before))
+        ctx.oracle(ok, 'building a TransformSequence around another sequence (copy=True) changed the inner sequence', case)
+    # -seq exists exactly when every member can be inverted
+    allinv = all(m['k'] in ('A', 'M', 'I') and (m['k'] == 'I' or m_det([F(x) for x in m['mat']]) != 0) for m in flat)
+    try:
+        neg = -seq
+        negok = True
+    except (TypeError, np.linalg.LinAlgError):
+        negok = False
+    ctx.oracle(negok == allinv, f'-TransformSequence: every member invertible={allinv} but negation {"worked" if negok else "raised"}', case)
+    if negok and allinv and not np.isnan(np.asarray(out)).any():
+        ctx.oracle(rows_str(neg.xform(out)) == rows_str(b64), '-seq applied after seq does not restore the points (nested construction)', case)
+
+
+def gen_seqnest(r):
+    def member():
+        k = r.choice(['M', 'M', 'A', 'A', 'F', 'I'])
+        if k == 'I':
+            return dict(k='I')
+        while True:
+            M = rand_frame(r, n=1)
+            if small(M, 4, 4) and inv_exact(M) and small(m_inv(M), 6, 6):
+                return dict(k=k, mat=[fs(x) for x in M])
+    items = []
+    for _ in range(r.choice([1, 2, 2, 3, 4])):
+        if r.random() < 0.5:
+            items.append(dict(group=[member() for _ in range(r.choice([0, 1, 2, 2, 3]))], as_=r.choice(['seq', 'seq', 'list'])))
+        else:
+            items.append(member())
+    rows = [[fs(F(r.randint(-8, 8), r.choice([1, 2]))) for _ in range(3)] if r.random() > 0.15 else r.choice(['nan1', 'nanall']) for _ in range(r.randint(1, 3))]
+    return dict(items=items, rows=rows, how=r.choice(['init', 'init', 'nocopy', 'append']), dtype='float64')
+
+# ---------------------------------------------------------------------------------------------
+# registered / nested TransformSequences (register_transform accepts them; register_transformfile creates them)
+# ---------------------------------------------------------------------------------------------
+def case_seqreg(ctx, case):
+    var = case['var']
+    ctx.count('seqreg', var)
+    A = [F(2), 0, 0, 1, 0, 1, 0, 0, 0, 0, 1, 0]
+    B = [F(1), 0, 0, 0, 0, 4, 0, 0, 0, 0, 1, F(1, 2)]
+    pts = np.array([[1.0, 2.0, 3.0], [np.nan, 0.0, 1.0], [-2.0, 0.5, 4.0]])
+    want_ab = rows_str(np.where(np.isnan(pts).any(axis=1)[:, None], np.nan, np.array([[float(v) for v in m_apply(m_comp(A, B), [F(float(x)) for x in np.nan_to_num(row)])] for row in pts])))
+    if var in ('nest-init', 'nest-nocopy', 'nest-append', 'append-list'):
+        inner = TransformSequence(AffineTransform(m_np(A)), AffineTransform(m_np(B)))
+        try:
+            if var == 'nest-init':
+                seq = TransformSequence(inner)
+            elif var == 'nest-nocopy':
+                seq = TransformSequence(inner, copy=False)
+            elif var == 'nest-append':
+                seq = TransformSequence()
+                seq.append(inner)
+            else:
+                seq = TransformSequence()
+                seq.append([AffineTransform(m_np(A)), AffineTransform(m_np(B))])
+            got, err = rows_str(seq.xform(pts)), None
+        except Exception as e:
+            got, err = None, f'{type(e).__name__}: {e}'
+        ctx.oracle(got == want_ab, f'TransformSequence built from a sequence / list of members ({var}): expected the composition of the members, '
+                                   f'got {got if err is None else err}', case)
+        return
+    # registry variants
+    reg = TT.TemplateRegistry(scan_paths=False)
+    tmp = None
+    if var == 'file':
+        tmp = tempfile.mkdtemp(prefix='c08reg')
+        for fn in ('Y_X.json', 'Z_Y.json', 'X_mirror.json', 'W_imgflip.json'):
+            with open(os.path.join(tmp, fn), 'w') as f:
+                f.write('[]')
+        for fn in ('Y_X.json', 'Z_Y.json', 'X_mirror.json', 'W_imgflip.json'):
+            reg.register_transformfile(os.path.join(tmp, fn))
+        got = sorted((str(t.source), str(t.target), t.type, type(t.transform).__name__) for t in reg.transforms)
+        want = sorted([('X', 'Y', 'bridging', 'TransformSequence'), ('Y', 'Z', 'bridging', 'TransformSequence'),
+                       ('X', 'None', 'mirror', 'TransformSequence'), ('W', 'None', 'mirror', 'TransformSequence')])
+        ctx.oracle(got == want, f'register_transformfile: {{TARGET}}_{{SOURCE}}.ext / mirror naming not honoured: {got}', case)
+        want_rows = rows_str(pts)
+        mats = [ID12, ID12]
+    else:
+        members = [AffineTransform(m_np(A))]
+        if var == 'noninv':
+            members.append(FunctionTransform(make_func(B)))
+        else:
+            members.append(AffineTransform(m_np(B)))
+        reg.register_transform(TransformSequence(*members), 'X', 'Y', 'bridging')
+        reg.register_transform(AffineTransform(m_np(A)), 'Y', 'Z', 'bridging')
+        want_rows = rows_str(np.where(np.isnan(pts).any(axis=1)[:, None], np.nan, np.array([[float(v) for v in m_apply(m_comp(m_comp(A, B), A), [F(float(x)) for x in np.nan_to_num(row)])] for row in pts])))
+    # the graph: a sequence with a non-invertible member must simply have no reverse edge
+    try:
+        G = reg.bridging_graph()
+        gerr = None
+    except Exception as e:
+        G, gerr = None, f'{type(e).__name__}: {e}'
+    ctx.oracle(gerr is None, f'bridging_graph raises {gerr} for a registry holding a TransformSequence ({var}); no query can be answered', case)
+    if gerr is None:
+        if var in ('inv', 'noninv'):
+            has_rev = G.has_edge('Y', 'X')
+            ctx.oracle(has_rev == (var == 'inv'), f'registered TransformSequence ({var}): reverse edge Y->X present={has_rev} '
+                                                  f'(must exist exactly when every member is invertible)', case)
+            ctx.oracle(G.has_edge('Z', 'Y'), 'a non-invertible member of ANOTHER registration removed the reverse edge Z->Y', case)
+        try:
+            path, trs = reg.find_bridging_path('Y', 'Z')
+            ok = path == ['Y', 'Z']
+        except Exception as e:
+            ok = False
+        ctx.oracle(ok, 'find_bridging_path(Y->Z) fails on a registry holding a TransformSequence', case)
+        try:
+            path, trs = reg.find_bridging_path('X', 'Z')
+            ok = path == ['X', 'Y', 'Z'] and len(trs) == 2
+        except Exception as e:
+            ok = False
+        ctx.oracle(ok, 'find_bridging_path(X->Z) through a registered TransformSequence fails', case)
+        with Swap(reg):
+            try:
+                got, err = rows_str(navis.xform_brain(pts.copy(), source='X', target='Z', verbose=False)), None
+            except Exception as e:
+                got, err = None, f'{type(e).__name__}: {e}'
+        ctx.oracle(got == want_rows, f'xform_brain(X->Z) through a registered TransformSequence ({var}): expected the direct change of frame, '
+                                     f'got {got if err is None else err}', case)
+        if var == 'inv':
+            back_in = np.array([[float(v) for v in m_apply(m_comp(m_comp(A, B), A), [F(1), F(2), F(3)])]])
+            with Swap(reg):
+                try:
+                    got, err = rows_str(navis.xform_brain(back_in, source='Z', target='X', verbose=False)), None
+                except Exception as e:
+                    got, err = None, f'{type(e).__name__}: {e}'
+            ctx.oracle(got == '1,2,3', f'xform_brain(Z->X) back through the reverse edge of a registered TransformSequence: expected 1,2,3, '
+                                       f'got {got if err is None else err}', case)
+    if tmp:
+        import shutil
+        shutil.rmtree(tmp, ignore_errors=True)
+
+
+# ---------------------------------------------------------------------------------------------
+# "never modifies its input array" for every dtype / memory layout
+# ---------------------------------------------------------------------------------------------
+LAYOUTS = ['c', 'f', 'strided', 'cols', 'readonly', 'rev', 'float32', 'float16', 'int64', 'int32', 'uint8', 'bigendian', 'list', 'tuple', 'frame', 'frame32']
+
+
+def lay_out(rows, layout):
+    """(input object, base buffer to watch, float64 reference)"""
+    ref = np.array(rows, dtype=np.float64).reshape(-1, 3)
+    m = len(ref)
+    if layout == 'c':
+        a = ref.copy()
+        return a, a, ref
+    if layout == 'f':
+        a = np.asfortranarray(ref.copy())
+        return a, a, ref
+    if layout == 'strided':
+        base = np.full((2 * m, 3), 7.0)
+        base[::2] = ref
+        return base[::2], base, ref
+    if layout == 'cols':
+        base = np.full((m, 5), 7.0)
+        base[:, 1:4] = ref
+        return base[:, 1:4], base, ref
+    if layout == 'rev':
+        base = ref[::-1].copy()
+        return base[::-1], base, ref
+    if layout == 'readonly':
+        a = ref.copy()
+        a.flags.writeable = False
+        return a, a, ref
+    if layout in ('float32', 'float16', 'int64', 'int32', 'uint8'):
+        a = ref.astype(layout)
+        return a, a, a.astype(np.float64)
+    if layout == 'bigendian':
+        a = ref.astype('>f8')
+        return a, a, ref
+    if layout == 'list':
+        a = ref.tolist()
+        return a, None, ref
+    if layout == 'tuple':
+        a = tuple(tuple(r_) for r_ in ref.tolist())
+        return a, None, ref
+    if layout in ('frame', 'frame32'):
+        a = pd.DataFrame(ref.astype(np.float32 if layout == 'frame32' else np.float64), columns=['x', 'y', 'z'])
+        return a, None, a.values.astype(np.float64)
+    raise ValueError(layout)
+
+
+def snapshot(obj, base):
+    if base is not None:
+        return (base.tobytes(), base.dtype.str, base.shape, base.strides, obj.shape, obj.strides)
+    if isinstance(obj, pd.DataFrame):
+        return (obj.values.tobytes(), tuple(obj.columns), tuple(str(d) for d in obj.dtypes), tuple(obj.index))
+    return repr(obj)
+
+
+def case_layout(ctx, case):
+    layout = case['layout']
+    rows = [[float(F(v)) for v in w] if not isinstance(w, str) else ([np.nan] * 3 if w == 'nanall' else [np.nan if i == int(w[3]) else float(i + 1) for i in range(3)])
+            for w in case['rows']]
+    members = case['members']
+    obj, base, ref = lay_out(rows, layout)
+    snap = snapshot(obj, base)
+    ctx.count('layout', layout)
+    tok = ';'.join(member_tok(m) for m in members)
+    try:
+        if case['via'] == 'seq':
+            what = 'TransformSequence.xform'
+            seq = TransformSequence(*[make_member(m) for m in members])
+            out = seq.xform(obj)
+        elif case['via'] == 'xform':
+            what = 'navis.xform(array, TransformSequence)'
+            seq = TransformSequence(*[make_member(m) for m in members])
+            out = navis.xform(obj, seq)
+        else:
+            what = 'navis.xform_brain(array)'
+            reg = TT.TemplateRegistry(scan_paths=False)
+            for i, m in enumerate(members):
+                reg.register_transform(make_member(m), f'T{i}', f'T{i + 1}', 'bridging')
+            with Swap(reg):
+                out = navis.xform_brain(obj, source='T0', target=f'T{len(members)}', verbose=False)
+    except Exception as e:
+        ctx.oracle(snapshot(obj, base) == snap, f'{what} modified its input ({layout} input, {len(members)} member(s)) and raised {type(e).__name__}', case)
+        ctx.oracle(False, f'{what} raised {type(e).__name__}: {str(e)[:120]} for a {layout} input (it must work on a copy)', case)
+        return
+    ctx.oracle(snapshot(obj, base) == snap, f'{what} modified its input ({layout} input, {len(members)} member(s))', case)
+    outa = out[['x', 'y', 'z']].values if isinstance(out, pd.DataFrame) else np.asarray(out)
+    if base is not None:
+        ctx.count('output_shares_memory_with_input', bool(np.shares_memory(outa, base)))
+    model = ctx.ask(f'c08.seq {tok} | {rows_str(ref)}')
+    exact = layout not in ('float32', 'float16', 'int64', 'int32', 'uint8', 'frame32') or what == 'TransformSequence.xform'
+    if exact:
+        ctx.corr(rows_str(outa), model, f'{what} rows for a {layout} input', case)
+    ctx.oracle(nan_rows_bitwise_same(ref, np.asarray(outa, dtype=np.float64)) or not exact, f'{what} touched a row containing NaN ({layout})', case)
+
+
+def gen_layout(r, layout=None, via=None):
+    layout = layout or r.choice(LAYOUTS)
+    via = via or r.choice(['seq', 'seq', 'xform', 'brain'])
+    n = r.choice([1, 1, 2, 3])
+    members = []
+    for _ in range(n):
+        k = r.choice(['A', 'A', 'F', 'I'])
+        if k == 'I':
+            members.append(dict(k='I'))
+        else:
+            while True:
+                M = rand_frame(r, n=1)
+                if small(M, 4, 6):
+                    break
+            members.append(dict(k=k, mat=[fs(x) for x in M]))
+    if via == 'brain' and not any(m['k'] != 'I' for m in members):
+        members[0] = dict(k='A', mat=[fs(x) for x in rand_elem(r)])
+    integral = layout in ('int64', 'int32', 'uint8')
+    rows = []
+    for _ in range(r.randint(1, 5)):
+        if not integral and layout not in ('float16',) and r.random() < 0.2:
+            rows.append(r.choice(['nan0', 'nan2', 'nanall']))
+        elif integral:
+            rows.append([fs(F(r.randint(0, 9))) for _ in range(3)])
+        else:
+            rows.append([fs(F(r.randint(-16, 16), r.choice([1, 2]))) for _ in range(3)])
+    if via != 'seq' and layout in ('list', 'tuple'):
+        layout = 'c'          # navis.xform takes arrays / frames / neurons only
+    return dict(layout=layout, via=via, members=members, rows=rows)
+
 # ---------------------------------------------------------------------------------------------
 RUNNERS = {'bridge': case_bridge, 'seq': case_seq, 'affine': case_affine, 'affine_tol': case_affine_tol,
-           'cache': case_cache, 'sbs': case_sbs, 'landmarks': case_landmarks}
+           'cache': case_cache, 'sbs': case_sbs, 'landmarks': case_landmarks, 'tps': case_tps, 'seqmerge': case_seqmerge,
+           'seqreg': case_seqreg, 'seqnest': case_seqnest, 'layout': case_layout}
 
 
 def gen_cases(ctx):
     r = ctx.rng
     thorough = not ctx.quick()
-    boost = 3 if ctx.search_mode else 1
+    boost = 3 if (ctx.search_mode and thorough) else 1     # quick tier: ctx.budget already multiplies by 4 in search mode
     # corpus: the DESIGN §6 #9 witness and the truncation witness, run first
     diamond = dict(names=['A', 'B', 'C', 'D', 'E'], frames=[[fs(x) for x in fr] for fr in
                    [ID12, m_comp(ID12, [F(2), 0, 0, 1, 0, 1, 0, 0, 0, 0, 1, 0]), [F(0), 1, 0, 0, 1, 0, 0, 2, 0, 0, 1, 0],
@@ -1082,14 +1784,36 @@ def gen_cases(ctx):
             yield 'sbs', dict(spec, query=q, world=gen_world(r, spec['frames']))
     for _ in range(ctx.budget(10, 80)):
         yield 'landmarks', dict(kind2=r.choice(['tps', 'mls']), n=r.choice([5, 8, 12, 20]), seed=r.randrange(10 ** 9))
+    # the warm-cache pattern first (use, negate, use), then random histories
+    yield 'tps', dict(seed=11, n=6, hist=[['M', 0, 1], ['U', 0], ['N', 0], ['U', 1], ['C', 1], ['U', 2, 'W'], ['G', 0], ['S', 1]])
+    for _ in range(ctx.budget(25, 250) * boost):
+        yield 'tps', gen_tps(r)
+    for _ in range(ctx.budget(150, 2000) * boost):
+        yield 'seqmerge', gen_seqmerge(r)
+    for var in ['nest-init', 'nest-nocopy', 'nest-append', 'append-list', 'inv', 'noninv', 'file']:
+        yield 'seqreg', dict(var=var)
+    for _ in range(ctx.budget(120, 1500) * boost):
+        yield 'seqnest', gen_seqnest(r)
+    # every layout through every entry point at least once, then random ones
+    for lay in LAYOUTS:
+        for via in ['seq', 'xform', 'brain']:
+            yield 'layout', gen_layout(r, lay, via)
+    for _ in range(ctx.budget(100, 1500) * boost):
+        yield 'layout', gen_layout(r)
 
 
 def run(ctx):
     ctx.extra['rule'] = ('bridge cases: (registry of <=6 templates with exact dyadic frames, registrations, one query '
                          '(source,target,via,avoid,reciprocal), points incl. NaN rows); seq cases: (members, rows); affine cases: '
                          '(matrix, points); cache cases: register/query histories; sbs cases: shortest_bridging_seq queries; '
-                         'landmarks: TPS/MLS (tolerance tests). Every case is non-trivial; distinct = distinct JSON digest')
+                         'landmarks: TPS/MLS (tolerance tests); tps cases: construct/use/copy/negate histories over TPStransform objects '
+                         '(coefficient cache vs state machine, coefficients vs the TPS system in Rat); seqmerge: sequences with mergeable members; '
+                         'seqreg: registered / nested TransformSequences; layout: every dtype / memory layout x entry point. '
+                         'Every case is non-trivial; distinct = distinct JSON digest')
     ctx.extra['assumptions'] = ['np.linalg.inv is exact on the generated dyadic matrices (checked per matrix by the generator)',
+                                'np.linalg.solve inside morphops.tps_coefs and the molesq numerics are external: navis\' TPS coefficients are '
+                                'checked against the TPS system in exact rationals with a tolerance (Lean checker solvesB), MLS is tested with a tolerance',
+                                'scipy cdist supplies the kernel values (the TPS theorems hold for every kernel)',
                                 'networkx shortest_path / all_simple_paths are modelled by their specification; the decision logic is '
                                 'compared on networkx\' own enumeration']
     try:
